@@ -152,3 +152,4 @@ macro_rules! c09_options {
     };
 }
 
+
